@@ -392,7 +392,8 @@ class Program:
         seen = set()
         gl = []
         for u, g in self.globals:
-            k = (g["file"], g["line"], g["qn"])
+            # function-local statics of template members share file, line and name: the enclosing instantiation tells them apart
+            k = (g["file"], g["line"], g["qn"], g.get("in"))
             if k in seen:
                 continue
             seen.add(k)
